@@ -98,9 +98,18 @@ def fix_trace(ctx):
     return trace_stage(ctx, "fixint", cmds, "Trace_Wire")
 
 
+def fix_io_trace(ctx):
+    # the adapters through byte writers/readers that accept, deliver or refuse data piecewise (every fault offset, Ok(0) writers)
+    cargo_build(ctx, "h_core")
+    n = ctx.pick(64, 512)
+    cmds = [([hbin("h_core"), "io", "--fix", "1", "--n", str(n), "--seed", str(ctx.seed * 1000 + 700 + i)], f"iofix-{i}.ndjson") for i in range(ctx.pick(4, NSH))]
+    return trace_stage(ctx, "io-fix", cmds, "Trace_Io")
+
+
 def run_c13(ctx):
     tlc_mc(ctx, "fixint", "MC_Fix", tmpl("MC_Fix"))
     fix_trace(ctx)
+    fix_io_trace(ctx)
 
 
 # --------------------------------------------------------------------------- accumulator (C08, C09)
